@@ -1,59 +1,1 @@
-fn m1() -> String { let base_style = Style { x: 3.0, y: 4.0, alpha: 0.75, size: 12.0 }; obs_anim(animator!(Style { default(State::A, base_style), State::B | State::C | State::A => , State::A | S::Idle | S::Idle => infinite 1x })) }
-fn r1() -> String { let base_style = Style { x: 3.0, y: 4.0, alpha: 0.75, size: 12.0 }; obs_anim({ let default_values = base_style; ::mina::StateAnimatorBuilder::new().from_state(State::A).from_values(default_values.clone()).on(State::B, Style::timeline().build()).on(State::C, Style::timeline().build()).on(State::A, Style::timeline().build()).on(State::A, Style::timeline().repeat(::mina::Repeat::Times(1u32)).build()).on(S::Idle, Style::timeline().repeat(::mina::Repeat::Times(1u32)).build()).on(S::Idle, Style::timeline().repeat(::mina::Repeat::Times(1u32)).build()).build() }) }
-fn m5() -> String { let base_style = Style { x: 3.0, y: 4.0, alpha: 0.75, size: 12.0 }; obs_anim(animator!(Style { default(S::Idle, { x: 0.61 }), State::B => [ 50 % default , after 0.9e-1s for 7ms reverse from {  } ] })) }
-fn r5() -> String { let base_style = Style { x: 3.0, y: 4.0, alpha: 0.75, size: 12.0 }; obs_anim({ let default_values = { let mut d = Style::default(); d.x = 0.61; d }; ::mina::StateAnimatorBuilder::new().from_state(S::Idle).from_values(default_values.clone()).on(State::B, ::mina::MergedTimeline::of([Style::timeline().keyframe(Style::keyframe(f32::from_bits(1056964608u32)).values_from(f32::from_bits(1056964608u32), &default_values)).build(), Style::timeline().duration_seconds(f32::from_bits(1004888130u32)).delay_seconds(f32::from_bits(1035489772u32)).reverse(true).keyframe(Style::keyframe(f32::from_bits(0u32))).build()])).build() }) }
-fn m7() -> String { let base_style = Style { x: 3.0, y: 4.0, alpha: 0.75, size: 12.0 }; obs_anim(animator!(Style { default(State::B, { x: 1.0+2.0, y: 1.0+2.0, alpha: 0.05 }), State::C | State::B => 4.2e-3s reverse reverse from {  } for 2.0ms, State::A => reverse from {  } 50 % default for 1s infinite })) }
-fn r7() -> String { let base_style = Style { x: 3.0, y: 4.0, alpha: 0.75, size: 12.0 }; obs_anim({ let default_values = { let mut d = Style::default(); d.x = 1.0+2.0; d.y = 1.0+2.0; d.alpha = 0.05; d }; ::mina::StateAnimatorBuilder::new().from_state(State::B).from_values(default_values.clone()).on(State::C, Style::timeline().duration_seconds(f32::from_bits(990057071u32)).reverse(true).keyframe(Style::keyframe(f32::from_bits(0u32))).build()).on(State::B, Style::timeline().duration_seconds(f32::from_bits(990057071u32)).reverse(true).keyframe(Style::keyframe(f32::from_bits(0u32))).build()).on(State::A, Style::timeline().duration_seconds(f32::from_bits(1065353216u32)).repeat(::mina::Repeat::Infinite).reverse(true).keyframe(Style::keyframe(f32::from_bits(0u32))).keyframe(Style::keyframe(f32::from_bits(1056964608u32)).values_from(f32::from_bits(1056964608u32), &default_values)).build()).build() }) }
-fn m8() -> String { let base_style = Style { x: 3.0, y: 4.0, alpha: 0.75, size: 12.0 }; obs_anim(animator!(Style { default(State::C, base_style), State::A => [ infinite reverse ] })) }
-fn r8() -> String { let base_style = Style { x: 3.0, y: 4.0, alpha: 0.75, size: 12.0 }; obs_anim({ let default_values = base_style; ::mina::StateAnimatorBuilder::new().from_state(State::C).from_values(default_values.clone()).on(State::A, Style::timeline().repeat(::mina::Repeat::Infinite).reverse(true).build()).build() }) }
-fn m10() -> String { let base_style = Style { x: 3.0, y: 4.0, alpha: 0.75, size: 12.0 }; obs_anim(animator!(Style { default(S::Idle), State::A => for 321ms reverse my::easing::CUSTOM 100 % {  } })) }
-fn r10() -> String { let base_style = Style { x: 3.0, y: 4.0, alpha: 0.75, size: 12.0 }; obs_anim({ let default_values = Style::default(); ::mina::StateAnimatorBuilder::new().from_state(S::Idle).from_values(default_values.clone()).on(State::A, Style::timeline().duration_seconds(f32::from_bits(1050958365u32)).default_easing(my::easing::CUSTOM).reverse(true).keyframe(Style::keyframe(f32::from_bits(1065353216u32))).build()).build() }) }
-fn m11() -> String { let base_style = Style { x: 3.0, y: 4.0, alpha: 0.75, size: 12.0 }; obs_anim(animator!(Style { default(S::Idle), State::A => [ , my::easing::CUSTOM to { x: 9_865f32, y: 727f32 } 0 % { x: 7e0, y: 0.171 } Easing::Linear reverse from {  } ], S::Idle => from { x: foo(3), y: 4.651 } 2s 0.83ms })) }
-fn r11() -> String { let base_style = Style { x: 3.0, y: 4.0, alpha: 0.75, size: 12.0 }; obs_anim({ let default_values = Style::default(); ::mina::StateAnimatorBuilder::new().from_state(S::Idle).from_values(default_values.clone()).on(State::A, ::mina::MergedTimeline::of([Style::timeline().build(), Style::timeline().default_easing(Easing::Linear).reverse(true).keyframe(Style::keyframe(f32::from_bits(1065353216u32)).x(9_865f32).y(727f32)).keyframe(Style::keyframe(f32::from_bits(0u32)).x(7e0).y(0.171)).keyframe(Style::keyframe(f32::from_bits(0u32))).build()])).on(S::Idle, Style::timeline().duration_seconds(f32::from_bits(978949212u32)).keyframe(Style::keyframe(f32::from_bits(0u32)).x(foo(3)).y(4.651)).build()).build() }) }
-fn m12() -> String { let base_style = Style { x: 3.0, y: 4.0, alpha: 0.75, size: 12.0 }; obs_anim(animator!(Style { default(State::C, {  }), State::C | S::Idle | State::C => reverse 0s 6.277ms reverse reverse 0.88ms })) }
-fn r12() -> String { let base_style = Style { x: 3.0, y: 4.0, alpha: 0.75, size: 12.0 }; obs_anim({ let default_values = { let mut d = Style::default(); d }; ::mina::StateAnimatorBuilder::new().from_state(State::C).from_values(default_values.clone()).on(State::C, Style::timeline().duration_seconds(f32::from_bits(979808206u32)).reverse(true).build()).on(S::Idle, Style::timeline().duration_seconds(f32::from_bits(979808206u32)).reverse(true).build()).on(State::C, Style::timeline().duration_seconds(f32::from_bits(979808206u32)).reverse(true).build()).build() }) }
-fn m15() -> String { let base_style = Style { x: 3.0, y: 4.0, alpha: 0.75, size: 12.0 }; obs_anim(animator!(Style { default(S::Idle, { x: 0.5e-1, y: foo(3), alpha: 19f32 }), State::C => 2.3e-2ms reverse 132ms 00x to { x: 2.64, y: -9.7e-2, alpha: 828.0 } })) }
-fn r15() -> String { let base_style = Style { x: 3.0, y: 4.0, alpha: 0.75, size: 12.0 }; obs_anim({ let default_values = { let mut d = Style::default(); d.x = 0.5e-1; d.y = foo(3); d.alpha = 19f32; d }; ::mina::StateAnimatorBuilder::new().from_state(S::Idle).from_values(default_values.clone()).on(State::C, Style::timeline().duration_seconds(f32::from_bits(1040657154u32)).repeat(::mina::Repeat::Times(0u32)).reverse(true).keyframe(Style::keyframe(f32::from_bits(1065353216u32)).x(2.64).y(-9.7e-2).alpha(828.0)).build()).build() }) }
-fn m16() -> String { let base_style = Style { x: 3.0, y: 4.0, alpha: 0.75, size: 12.0 }; obs_anim(animator!(Style { default(State::A, { x: 6.888, y: 1.0+2.0, alpha: -5.2e-2 }), S::Idle | State::B => 7e0ms after 6_421s from default after 0.69ms after 6.800ms })) }
-fn r16() -> String { let base_style = Style { x: 3.0, y: 4.0, alpha: 0.75, size: 12.0 }; obs_anim({ let default_values = { let mut d = Style::default(); d.x = 6.888; d.y = 1.0+2.0; d.alpha = -5.2e-2; d }; ::mina::StateAnimatorBuilder::new().from_state(State::A).from_values(default_values.clone()).on(S::Idle, Style::timeline().duration_seconds(f32::from_bits(1004888130u32)).delay_seconds(f32::from_bits(1004458634u32)).keyframe(Style::keyframe(f32::from_bits(0u32)).values_from(f32::from_bits(0u32), &default_values)).build()).on(State::B, Style::timeline().duration_seconds(f32::from_bits(1004888130u32)).delay_seconds(f32::from_bits(1004458634u32)).keyframe(Style::keyframe(f32::from_bits(0u32)).values_from(f32::from_bits(0u32), &default_values)).build()).build() }) }
-fn m17() -> String { let base_style = Style { x: 3.0, y: 4.0, alpha: 0.75, size: 12.0 }; obs_anim(animator!(Style { default(S::Idle), State::C => 8.5e-2ms 8 % { x: 9_516f32, y: foo(3) }, State::C | State::C | State::B => 00x 3.3e-1s for 0.01s Easing::Ease for 8ms })) }
-fn r17() -> String { let base_style = Style { x: 3.0, y: 4.0, alpha: 0.75, size: 12.0 }; obs_anim({ let default_values = Style::default(); ::mina::StateAnimatorBuilder::new().from_state(S::Idle).from_values(default_values.clone()).on(State::C, Style::timeline().duration_seconds(f32::from_bits(951206408u32)).keyframe(Style::keyframe(f32::from_bits(1034147594u32)).x(9_516f32).y(foo(3))).build()).on(State::C, Style::timeline().duration_seconds(f32::from_bits(1006834287u32)).default_easing(Easing::Ease).repeat(::mina::Repeat::Times(0u32)).build()).on(State::C, Style::timeline().duration_seconds(f32::from_bits(1006834287u32)).default_easing(Easing::Ease).repeat(::mina::Repeat::Times(0u32)).build()).on(State::B, Style::timeline().duration_seconds(f32::from_bits(1006834287u32)).default_easing(Easing::Ease).repeat(::mina::Repeat::Times(0u32)).build()).build() }) }
-fn m19() -> String { let base_style = Style { x: 3.0, y: 4.0, alpha: 0.75, size: 12.0 }; obs_anim(animator!(Style { default(S::Idle, base_style), S::Idle | State::C | State::B =>  })) }
-fn r19() -> String { let base_style = Style { x: 3.0, y: 4.0, alpha: 0.75, size: 12.0 }; obs_anim({ let default_values = base_style; ::mina::StateAnimatorBuilder::new().from_state(S::Idle).from_values(default_values.clone()).on(S::Idle, Style::timeline().build()).on(State::C, Style::timeline().build()).on(State::B, Style::timeline().build()).build() }) }
-fn m22() -> String { let base_style = Style { x: 3.0, y: 4.0, alpha: 0.75, size: 12.0 }; obs_anim(animator!(Style { default(S::Idle, { x: 0.26, y: 1_944.0, alpha: 9_697.0 }), State::B => infinite from {  } after 3e1ms 50 % { x: 9.9e-1, y: 1.0+2.0, alpha: 9.0 } for 672ms 0 % { x: 588f32, y: foo(3), alpha: 4.4e-3 }, State::A | S::Idle | State::C => reverse 92.5 % default infinite from { x: 1.0+2.0 } })) }
-fn r22() -> String { let base_style = Style { x: 3.0, y: 4.0, alpha: 0.75, size: 12.0 }; obs_anim({ let default_values = { let mut d = Style::default(); d.x = 0.26; d.y = 1_944.0; d.alpha = 9_697.0; d }; ::mina::StateAnimatorBuilder::new().from_state(S::Idle).from_values(default_values.clone()).on(State::B, Style::timeline().duration_seconds(f32::from_bits(1059850290u32)).delay_seconds(f32::from_bits(1022739088u32)).repeat(::mina::Repeat::Infinite).keyframe(Style::keyframe(f32::from_bits(0u32))).keyframe(Style::keyframe(f32::from_bits(1056964608u32)).x(9.9e-1).y(1.0+2.0).alpha(9.0)).keyframe(Style::keyframe(f32::from_bits(0u32)).x(588f32).y(foo(3)).alpha(4.4e-3)).build()).on(State::A, Style::timeline().repeat(::mina::Repeat::Infinite).reverse(true).keyframe(Style::keyframe(f32::from_bits(1064094924u32)).values_from(f32::from_bits(1064094924u32), &default_values)).keyframe(Style::keyframe(f32::from_bits(0u32)).x(1.0+2.0)).build()).on(S::Idle, Style::timeline().repeat(::mina::Repeat::Infinite).reverse(true).keyframe(Style::keyframe(f32::from_bits(1064094924u32)).values_from(f32::from_bits(1064094924u32), &default_values)).keyframe(Style::keyframe(f32::from_bits(0u32)).x(1.0+2.0)).build()).on(State::C, Style::timeline().repeat(::mina::Repeat::Infinite).reverse(true).keyframe(Style::keyframe(f32::from_bits(1064094924u32)).values_from(f32::from_bits(1064094924u32), &default_values)).keyframe(Style::keyframe(f32::from_bits(0u32)).x(1.0+2.0)).build()).build() }) }
-fn m23() -> String { let base_style = Style { x: 3.0, y: 4.0, alpha: 0.75, size: 12.0 }; obs_anim(animator!(Style { default(S::Idle, base_style), State::C | State::B | State::B => 4.755s infinite, S::Idle | State::C | State::C => after 5e1s Easing::InOutBack, State::B | State::C =>  })) }
-fn r23() -> String { let base_style = Style { x: 3.0, y: 4.0, alpha: 0.75, size: 12.0 }; obs_anim({ let default_values = base_style; ::mina::StateAnimatorBuilder::new().from_state(S::Idle).from_values(default_values.clone()).on(State::C, Style::timeline().duration_seconds(f32::from_bits(1083713782u32)).repeat(::mina::Repeat::Infinite).build()).on(State::B, Style::timeline().duration_seconds(f32::from_bits(1083713782u32)).repeat(::mina::Repeat::Infinite).build()).on(State::B, Style::timeline().duration_seconds(f32::from_bits(1083713782u32)).repeat(::mina::Repeat::Infinite).build()).on(S::Idle, Style::timeline().delay_seconds(f32::from_bits(1112014848u32)).default_easing(Easing::InOutBack).build()).on(State::C, Style::timeline().delay_seconds(f32::from_bits(1112014848u32)).default_easing(Easing::InOutBack).build()).on(State::C, Style::timeline().delay_seconds(f32::from_bits(1112014848u32)).default_easing(Easing::InOutBack).build()).on(State::B, Style::timeline().build()).on(State::C, Style::timeline().build()).build() }) }
-fn m25() -> String { let base_style = Style { x: 3.0, y: 4.0, alpha: 0.75, size: 12.0 }; obs_anim(animator!(Style { default(State::B, {  }), S::Idle | State::A => 1 % { x: 510.0 } 1_000x 3x })) }
-fn r25() -> String { let base_style = Style { x: 3.0, y: 4.0, alpha: 0.75, size: 12.0 }; obs_anim({ let default_values = { let mut d = Style::default(); d }; ::mina::StateAnimatorBuilder::new().from_state(State::B).from_values(default_values.clone()).on(S::Idle, Style::timeline().repeat(::mina::Repeat::Times(3u32)).keyframe(Style::keyframe(f32::from_bits(1008981770u32)).x(510.0)).build()).on(State::A, Style::timeline().repeat(::mina::Repeat::Times(3u32)).keyframe(Style::keyframe(f32::from_bits(1008981770u32)).x(510.0)).build()).build() }) }
-fn m26() -> String { let base_style = Style { x: 3.0, y: 4.0, alpha: 0.75, size: 12.0 }; obs_anim(animator!(Style { default(State::B, { x: 19f32, y: -7f32 }), State::A => [ to default 100 % {  } 50 % default ] })) }
-fn r26() -> String { let base_style = Style { x: 3.0, y: 4.0, alpha: 0.75, size: 12.0 }; obs_anim({ let default_values = { let mut d = Style::default(); d.x = 19f32; d.y = -7f32; d }; ::mina::StateAnimatorBuilder::new().from_state(State::B).from_values(default_values.clone()).on(State::A, Style::timeline().keyframe(Style::keyframe(f32::from_bits(1065353216u32)).values_from(f32::from_bits(1065353216u32), &default_values)).keyframe(Style::keyframe(f32::from_bits(1065353216u32))).keyframe(Style::keyframe(f32::from_bits(1056964608u32)).values_from(f32::from_bits(1056964608u32), &default_values)).build()).build() }) }
-fn m27() -> String { let base_style = Style { x: 3.0, y: 4.0, alpha: 0.75, size: 12.0 }; obs_anim(animator!(Style { State::A | S::Idle | State::B => 8e2ms reverse infinite to default reverse after 5e1s, State::C | S::Idle | State::C => for 0.59ms reverse infinite infinite, S::Idle | S::Idle => from {  } infinite 0 % default infinite for 4e2ms })) }
-fn r27() -> String { let base_style = Style { x: 3.0, y: 4.0, alpha: 0.75, size: 12.0 }; obs_anim({ let default_values = Style::default(); ::mina::StateAnimatorBuilder::new().from_values(default_values.clone()).on(State::A, Style::timeline().duration_seconds(f32::from_bits(1061997773u32)).delay_seconds(f32::from_bits(1112014848u32)).repeat(::mina::Repeat::Infinite).reverse(true).keyframe(Style::keyframe(f32::from_bits(1065353216u32)).values_from(f32::from_bits(1065353216u32), &default_values)).build()).on(S::Idle, Style::timeline().duration_seconds(f32::from_bits(1061997773u32)).delay_seconds(f32::from_bits(1112014848u32)).repeat(::mina::Repeat::Infinite).reverse(true).keyframe(Style::keyframe(f32::from_bits(1065353216u32)).values_from(f32::from_bits(1065353216u32), &default_values)).build()).on(State::B, Style::timeline().duration_seconds(f32::from_bits(1061997773u32)).delay_seconds(f32::from_bits(1112014848u32)).repeat(::mina::Repeat::Infinite).reverse(true).keyframe(Style::keyframe(f32::from_bits(1065353216u32)).values_from(f32::from_bits(1065353216u32), &default_values)).build()).on(State::C, Style::timeline().duration_seconds(f32::from_bits(974826043u32)).repeat(::mina::Repeat::Infinite).reverse(true).build()).on(S::Idle, Style::timeline().duration_seconds(f32::from_bits(974826043u32)).repeat(::mina::Repeat::Infinite).reverse(true).build()).on(State::C, Style::timeline().duration_seconds(f32::from_bits(974826043u32)).repeat(::mina::Repeat::Infinite).reverse(true).build()).on(S::Idle, Style::timeline().duration_seconds(f32::from_bits(1053609165u32)).repeat(::mina::Repeat::Infinite).keyframe(Style::keyframe(f32::from_bits(0u32))).keyframe(Style::keyframe(f32::from_bits(0u32)).values_from(f32::from_bits(0u32), &default_values)).build()).on(S::Idle, Style::timeline().duration_seconds(f32::from_bits(1053609165u32)).repeat(::mina::Repeat::Infinite).keyframe(Style::keyframe(f32::from_bits(0u32))).keyframe(Style::keyframe(f32::from_bits(0u32)).values_from(f32::from_bits(0u32), &default_values)).build()).build() }) }
-fn m28() -> String { let base_style = Style { x: 3.0, y: 4.0, alpha: 0.75, size: 12.0 }; obs_anim(animator!(Style { default(State::A, { x: 1.0+2.0, y: -572f32, alpha: 154.0 }), S::Idle | State::B | State::A => [ reverse after 16s 100 % { x: 416f32, y: foo(3), alpha: foo(3) } reverse for 8.9e-2s 100 % { x: 2f32 } ] })) }
-fn r28() -> String { let base_style = Style { x: 3.0, y: 4.0, alpha: 0.75, size: 12.0 }; obs_anim({ let default_values = { let mut d = Style::default(); d.x = 1.0+2.0; d.y = -572f32; d.alpha = 154.0; d }; ::mina::StateAnimatorBuilder::new().from_state(State::A).from_values(default_values.clone()).on(S::Idle, Style::timeline().duration_seconds(f32::from_bits(1035355554u32)).delay_seconds(f32::from_bits(1098907648u32)).reverse(true).keyframe(Style::keyframe(f32::from_bits(1065353216u32)).x(416f32).y(foo(3)).alpha(foo(3))).keyframe(Style::keyframe(f32::from_bits(1065353216u32)).x(2f32)).build()).on(State::B, Style::timeline().duration_seconds(f32::from_bits(1035355554u32)).delay_seconds(f32::from_bits(1098907648u32)).reverse(true).keyframe(Style::keyframe(f32::from_bits(1065353216u32)).x(416f32).y(foo(3)).alpha(foo(3))).keyframe(Style::keyframe(f32::from_bits(1065353216u32)).x(2f32)).build()).on(State::A, Style::timeline().duration_seconds(f32::from_bits(1035355554u32)).delay_seconds(f32::from_bits(1098907648u32)).reverse(true).keyframe(Style::keyframe(f32::from_bits(1065353216u32)).x(416f32).y(foo(3)).alpha(foo(3))).keyframe(Style::keyframe(f32::from_bits(1065353216u32)).x(2f32)).build()).build() }) }
-fn m30() -> String { let base_style = Style { x: 3.0, y: 4.0, alpha: 0.75, size: 12.0 }; obs_anim(animator!(Style { default(State::A, { x: -11.0, y: -446.0 }), State::C | State::A | State::A => infinite 9.319s for 8s reverse, State::C => , State::C | State::A => reverse })) }
-fn r30() -> String { let base_style = Style { x: 3.0, y: 4.0, alpha: 0.75, size: 12.0 }; obs_anim({ let default_values = { let mut d = Style::default(); d.x = -11.0; d.y = -446.0; d }; ::mina::StateAnimatorBuilder::new().from_state(State::A).from_values(default_values.clone()).on(State::C, Style::timeline().duration_seconds(f32::from_bits(1090519040u32)).repeat(::mina::Repeat::Infinite).reverse(true).build()).on(State::A, Style::timeline().duration_seconds(f32::from_bits(1090519040u32)).repeat(::mina::Repeat::Infinite).reverse(true).build()).on(State::A, Style::timeline().duration_seconds(f32::from_bits(1090519040u32)).repeat(::mina::Repeat::Infinite).reverse(true).build()).on(State::C, Style::timeline().build()).on(State::C, Style::timeline().reverse(true).build()).on(State::A, Style::timeline().reverse(true).build()).build() }) }
-fn m31() -> String { let base_style = Style { x: 3.0, y: 4.0, alpha: 0.75, size: 12.0 }; obs_anim(animator!(Style { default(State::B, {  }), State::A | S::Idle => from {  } to {  } 2e1ms 54.5 % { x: 8.0 } to {  }, State::B | State::A => after 0.79ms 93.0s 50 % { x: -6_852.0, y: 2_526f32, alpha: 67.0 }, State::A | State::C => 42.5 % {  } 1x 72 % default after 5.9e-3s 3x my::easing::CUSTOM })) }
-fn r31() -> String { let base_style = Style { x: 3.0, y: 4.0, alpha: 0.75, size: 12.0 }; obs_anim({ let default_values = { let mut d = Style::default(); d }; ::mina::StateAnimatorBuilder::new().from_state(State::B).from_values(default_values.clone()).on(State::A, Style::timeline().duration_seconds(f32::from_bits(1017370379u32)).keyframe(Style::keyframe(f32::from_bits(0u32))).keyframe(Style::keyframe(f32::from_bits(1065353216u32))).keyframe(Style::keyframe(f32::from_bits(1057719583u32)).x(8.0)).keyframe(Style::keyframe(f32::from_bits(1065353216u32))).build()).on(S::Idle, Style::timeline().duration_seconds(f32::from_bits(1017370379u32)).keyframe(Style::keyframe(f32::from_bits(0u32))).keyframe(Style::keyframe(f32::from_bits(1065353216u32))).keyframe(Style::keyframe(f32::from_bits(1057719583u32)).x(8.0)).keyframe(Style::keyframe(f32::from_bits(1065353216u32))).build()).on(State::B, Style::timeline().duration_seconds(f32::from_bits(1119485952u32)).delay_seconds(f32::from_bits(978262018u32)).keyframe(Style::keyframe(f32::from_bits(1056964608u32)).x(-6_852.0).y(2_526f32).alpha(67.0)).build()).on(State::A, Style::timeline().duration_seconds(f32::from_bits(1119485952u32)).delay_seconds(f32::from_bits(978262018u32)).keyframe(Style::keyframe(f32::from_bits(1056964608u32)).x(-6_852.0).y(2_526f32).alpha(67.0)).build()).on(State::A, Style::timeline().delay_seconds(f32::from_bits(1002525898u32)).default_easing(my::easing::CUSTOM).repeat(::mina::Repeat::Times(3u32)).keyframe(Style::keyframe(f32::from_bits(1054448025u32))).keyframe(Style::keyframe(f32::from_bits(1060655595u32)).values_from(f32::from_bits(1060655595u32), &default_values)).build()).on(State::C, Style::timeline().delay_seconds(f32::from_bits(1002525898u32)).default_easing(my::easing::CUSTOM).repeat(::mina::Repeat::Times(3u32)).keyframe(Style::keyframe(f32::from_bits(1054448025u32))).keyframe(Style::keyframe(f32::from_bits(1060655595u32)).values_from(f32::from_bits(1060655595u32), &default_values)).build()).build() }) }
-fn m33() -> String { let base_style = Style { x: 3.0, y: 4.0, alpha: 0.75, size: 12.0 }; obs_anim(animator!(Style { State::B | State::B => [ 805ms Easing::Linear from { x: foo(3) } from default infinite , ] })) }
-fn r33() -> String { let base_style = Style { x: 3.0, y: 4.0, alpha: 0.75, size: 12.0 }; obs_anim({ let default_values = Style::default(); ::mina::StateAnimatorBuilder::new().from_values(default_values.clone()).on(State::B, ::mina::MergedTimeline::of([Style::timeline().duration_seconds(f32::from_bits(1062081660u32)).default_easing(Easing::Linear).repeat(::mina::Repeat::Infinite).keyframe(Style::keyframe(f32::from_bits(0u32)).x(foo(3))).keyframe(Style::keyframe(f32::from_bits(0u32)).values_from(f32::from_bits(0u32), &default_values)).build(), Style::timeline().build()])).on(State::B, ::mina::MergedTimeline::of([Style::timeline().duration_seconds(f32::from_bits(1062081660u32)).default_easing(Easing::Linear).repeat(::mina::Repeat::Infinite).keyframe(Style::keyframe(f32::from_bits(0u32)).x(foo(3))).keyframe(Style::keyframe(f32::from_bits(0u32)).values_from(f32::from_bits(0u32), &default_values)).build(), Style::timeline().build()])).build() }) }
-fn m36() -> String { let base_style = Style { x: 3.0, y: 4.0, alpha: 0.75, size: 12.0 }; obs_anim(animator!(Style { default(State::C, base_style), State::B | State::C | State::C => 8s 3.8e-3s from { x: 153.0, y: 198.0, alpha: -0.06 } 100 % { x: 1.0+2.0 } })) }
-fn r36() -> String { let base_style = Style { x: 3.0, y: 4.0, alpha: 0.75, size: 12.0 }; obs_anim({ let default_values = base_style; ::mina::StateAnimatorBuilder::new().from_state(State::C).from_values(default_values.clone()).on(State::B, Style::timeline().duration_seconds(f32::from_bits(997788012u32)).keyframe(Style::keyframe(f32::from_bits(0u32)).x(153.0).y(198.0).alpha(-0.06)).keyframe(Style::keyframe(f32::from_bits(1065353216u32)).x(1.0+2.0)).build()).on(State::C, Style::timeline().duration_seconds(f32::from_bits(997788012u32)).keyframe(Style::keyframe(f32::from_bits(0u32)).x(153.0).y(198.0).alpha(-0.06)).keyframe(Style::keyframe(f32::from_bits(1065353216u32)).x(1.0+2.0)).build()).on(State::C, Style::timeline().duration_seconds(f32::from_bits(997788012u32)).keyframe(Style::keyframe(f32::from_bits(0u32)).x(153.0).y(198.0).alpha(-0.06)).keyframe(Style::keyframe(f32::from_bits(1065353216u32)).x(1.0+2.0)).build()).build() }) }
-fn m37() -> String { let base_style = Style { x: 3.0, y: 4.0, alpha: 0.75, size: 12.0 }; obs_anim(animator!(Style { default(State::C, Style{x:1.5,..Default::default()}), State::C | State::B => [ 0.91s ], State::C | State::C | S::Idle => 896s, State::B | State::B => 68 % {  } after 1e1s })) }
-fn r37() -> String { let base_style = Style { x: 3.0, y: 4.0, alpha: 0.75, size: 12.0 }; obs_anim({ let default_values = Style{x:1.5,..Default::default()}; ::mina::StateAnimatorBuilder::new().from_state(State::C).from_values(default_values.clone()).on(State::C, Style::timeline().duration_seconds(f32::from_bits(1063843267u32)).build()).on(State::B, Style::timeline().duration_seconds(f32::from_bits(1063843267u32)).build()).on(State::C, Style::timeline().duration_seconds(f32::from_bits(1147142144u32)).build()).on(State::C, Style::timeline().duration_seconds(f32::from_bits(1147142144u32)).build()).on(S::Idle, Style::timeline().duration_seconds(f32::from_bits(1147142144u32)).build()).on(State::B, Style::timeline().delay_seconds(f32::from_bits(1092616192u32)).keyframe(Style::keyframe(f32::from_bits(1059984507u32))).build()).on(State::B, Style::timeline().delay_seconds(f32::from_bits(1092616192u32)).keyframe(Style::keyframe(f32::from_bits(1059984507u32))).build()).build() }) }
-fn m40() -> String { let base_style = Style { x: 3.0, y: 4.0, alpha: 0.75, size: 12.0 }; obs_anim(animator!(Style { default(State::A, {  }), State::B | State::B | State::C => [ 10x from {  } 4294967295x ], State::B => reverse after 6.1e-3s infinite from { x: 8.5e-3, y: 16.0, alpha: 9_736.0 }, State::B | S::Idle => from { x: 19.0, y: -5e0, alpha: 10.0 } 3_409s 0 % { x: 1.0+2.0, y: foo(3) } 0.78s reverse 0.61ms })) }
-fn r40() -> String { let base_style = Style { x: 3.0, y: 4.0, alpha: 0.75, size: 12.0 }; obs_anim({ let default_values = { let mut d = Style::default(); d }; ::mina::StateAnimatorBuilder::new().from_state(State::A).from_values(default_values.clone()).on(State::B, Style::timeline().repeat(::mina::Repeat::Times(4294967295u32)).keyframe(Style::keyframe(f32::from_bits(0u32))).build()).on(State::B, Style::timeline().repeat(::mina::Repeat::Times(4294967295u32)).keyframe(Style::keyframe(f32::from_bits(0u32))).build()).on(State::C, Style::timeline().repeat(::mina::Repeat::Times(4294967295u32)).keyframe(Style::keyframe(f32::from_bits(0u32))).build()).on(State::B, Style::timeline().delay_seconds(f32::from_bits(1002955394u32)).repeat(::mina::Repeat::Infinite).reverse(true).keyframe(Style::keyframe(f32::from_bits(0u32)).x(8.5e-3).y(16.0).alpha(9_736.0)).build()).on(State::B, Style::timeline().duration_seconds(f32::from_bits(975169641u32)).reverse(true).keyframe(Style::keyframe(f32::from_bits(0u32)).x(19.0).y(-5e0).alpha(10.0)).keyframe(Style::keyframe(f32::from_bits(0u32)).x(1.0+2.0).y(foo(3))).build()).on(S::Idle, Style::timeline().duration_seconds(f32::from_bits(975169641u32)).reverse(true).keyframe(Style::keyframe(f32::from_bits(0u32)).x(19.0).y(-5e0).alpha(10.0)).keyframe(Style::keyframe(f32::from_bits(0u32)).x(1.0+2.0).y(foo(3))).build()).build() }) }
-fn m41() -> String { let base_style = Style { x: 3.0, y: 4.0, alpha: 0.75, size: 12.0 }; obs_anim(animator!(Style { default(State::A, Style::new(1,2)), State::C => 0 % { x: 1.7e-3 } 4294967295x 100 % {  } })) }
-fn r41() -> String { let base_style = Style { x: 3.0, y: 4.0, alpha: 0.75, size: 12.0 }; obs_anim({ let default_values = Style::new(1,2); ::mina::StateAnimatorBuilder::new().from_state(State::A).from_values(default_values.clone()).on(State::C, Style::timeline().repeat(::mina::Repeat::Times(4294967295u32)).keyframe(Style::keyframe(f32::from_bits(0u32)).x(1.7e-3)).keyframe(Style::keyframe(f32::from_bits(1065353216u32))).build()).build() }) }
-fn m47() -> String { let base_style = Style { x: 3.0, y: 4.0, alpha: 0.75, size: 12.0 }; obs_anim(animator!(Style { default(S::Idle), State::B => 0 % default to { x: foo(3), y: 2.0 } for 16.0ms 8e1s infinite 24.5 % { x: 0.58, y: 1.0+2.0, alpha: 5.5e-3 } })) }
-fn r47() -> String { let base_style = Style { x: 3.0, y: 4.0, alpha: 0.75, size: 12.0 }; obs_anim({ let default_values = Style::default(); ::mina::StateAnimatorBuilder::new().from_state(S::Idle).from_values(default_values.clone()).on(State::B, Style::timeline().duration_seconds(f32::from_bits(1117782016u32)).repeat(::mina::Repeat::Infinite).keyframe(Style::keyframe(f32::from_bits(0u32)).values_from(f32::from_bits(0u32), &default_values)).keyframe(Style::keyframe(f32::from_bits(1065353216u32)).x(foo(3)).y(2.0)).keyframe(Style::keyframe(f32::from_bits(1048240455u32)).x(0.58).y(1.0+2.0).alpha(5.5e-3)).build()).build() }) }
-fn m50() -> String { let base_style = Style { x: 3.0, y: 4.0, alpha: 0.75, size: 12.0 }; obs_anim(animator!(Style { default(State::B), State::A | S::Idle => infinite 2x infinite reverse from {  } infinite })) }
-fn r50() -> String { let base_style = Style { x: 3.0, y: 4.0, alpha: 0.75, size: 12.0 }; obs_anim({ let default_values = Style::default(); ::mina::StateAnimatorBuilder::new().from_state(State::B).from_values(default_values.clone()).on(State::A, Style::timeline().repeat(::mina::Repeat::Infinite).reverse(true).keyframe(Style::keyframe(f32::from_bits(0u32))).build()).on(S::Idle, Style::timeline().repeat(::mina::Repeat::Infinite).reverse(true).keyframe(Style::keyframe(f32::from_bits(0u32))).build()).build() }) }
-fn m51() -> String { let base_style = Style { x: 3.0, y: 4.0, alpha: 0.75, size: 12.0 }; obs_anim(animator!(Style { default(State::A, { x: foo(3), y: 8e2, alpha: 52.0 }), State::A | S::Idle => [ from default 9_470ms , 100 % { x: 1.0+2.0 } ] })) }
-fn r51() -> String { let base_style = Style { x: 3.0, y: 4.0, alpha: 0.75, size: 12.0 }; obs_anim({ let default_values = { let mut d = Style::default(); d.x = foo(3); d.y = 8e2; d.alpha = 52.0; d }; ::mina::StateAnimatorBuilder::new().from_state(State::A).from_values(default_values.clone()).on(State::A, ::mina::MergedTimeline::of([Style::timeline().duration_seconds(f32::from_bits(1092060447u32)).keyframe(Style::keyframe(f32::from_bits(0u32)).values_from(f32::from_bits(0u32), &default_values)).build(), Style::timeline().keyframe(Style::keyframe(f32::from_bits(1065353216u32)).x(1.0+2.0)).build()])).on(S::Idle, ::mina::MergedTimeline::of([Style::timeline().duration_seconds(f32::from_bits(1092060447u32)).keyframe(Style::keyframe(f32::from_bits(0u32)).values_from(f32::from_bits(0u32), &default_values)).build(), Style::timeline().keyframe(Style::keyframe(f32::from_bits(1065353216u32)).x(1.0+2.0)).build()])).build() }) }
-fn m52() -> String { let base_style = Style { x: 3.0, y: 4.0, alpha: 0.75, size: 12.0 }; obs_anim(animator!(Style { default(State::B), State::C | State::C => infinite to default, S::Idle | State::A => reverse 88.5 % { x: 2e1 } 0 % { x: 6.3e-3, y: 14.0 }, State::C | State::B => for 6e0ms from {  } 1x })) }
-fn r52() -> String { let base_style = Style { x: 3.0, y: 4.0, alpha: 0.75, size: 12.0 }; obs_anim({ let default_values = Style::default(); ::mina::StateAnimatorBuilder::new().from_state(State::B).from_values(default_values.clone()).on(State::C, Style::timeline().repeat(::mina::Repeat::Infinite).keyframe(Style::keyframe(f32::from_bits(1065353216u32)).values_from(f32::from_bits(1065353216u32), &default_values)).build()).on(State::C, Style::timeline().repeat(::mina::Repeat::Infinite).keyframe(Style::keyframe(f32::from_bits(1065353216u32)).values_from(f32::from_bits(1065353216u32), &default_values)).build()).on(S::Idle, Style::timeline().reverse(true).keyframe(Style::keyframe(f32::from_bits(1063423836u32)).x(2e1)).keyframe(Style::keyframe(f32::from_bits(0u32)).x(6.3e-3).y(14.0)).build()).on(State::A, Style::timeline().reverse(true).keyframe(Style::keyframe(f32::from_bits(1063423836u32)).x(2e1)).keyframe(Style::keyframe(f32::from_bits(0u32)).x(6.3e-3).y(14.0)).build()).on(State::C, Style::timeline().duration_seconds(f32::from_bits(1002740646u32)).repeat(::mina::Repeat::Times(1u32)).keyframe(Style::keyframe(f32::from_bits(0u32))).build()).on(State::B, Style::timeline().duration_seconds(f32::from_bits(1002740646u32)).repeat(::mina::Repeat::Times(1u32)).keyframe(Style::keyframe(f32::from_bits(0u32))).build()).build() }) }
-fn m59() -> String { let base_style = Style { x: 3.0, y: 4.0, alpha: 0.75, size: 12.0 }; obs_anim(animator!(Style { default(State::A, { x: 7.0 }), S::Idle => 2_550ms reverse 565s for 0.74s 50 % { x: 4_386.0, y: -167.0, alpha: 1.0+2.0 } })) }
-fn r59() -> String { let base_style = Style { x: 3.0, y: 4.0, alpha: 0.75, size: 12.0 }; obs_anim({ let default_values = { let mut d = Style::default(); d.x = 7.0; d }; ::mina::StateAnimatorBuilder::new().from_state(State::A).from_values(default_values.clone()).on(S::Idle, Style::timeline().duration_seconds(f32::from_bits(1060991140u32)).reverse(true).keyframe(Style::keyframe(f32::from_bits(1056964608u32)).x(4_386.0).y(-167.0).alpha(1.0+2.0)).build()).build() }) }
-pub fn cases() -> Vec<(usize, fn() -> String, fn() -> String)> { vec![(1, m1 as fn() -> String, r1 as fn() -> String), (5, m5 as fn() -> String, r5 as fn() -> String), (7, m7 as fn() -> String, r7 as fn() -> String), (8, m8 as fn() -> String, r8 as fn() -> String), (10, m10 as fn() -> String, r10 as fn() -> String), (11, m11 as fn() -> String, r11 as fn() -> String), (12, m12 as fn() -> String, r12 as fn() -> String), (15, m15 as fn() -> String, r15 as fn() -> String), (16, m16 as fn() -> String, r16 as fn() -> String), (17, m17 as fn() -> String, r17 as fn() -> String), (19, m19 as fn() -> String, r19 as fn() -> String), (22, m22 as fn() -> String, r22 as fn() -> String), (23, m23 as fn() -> String, r23 as fn() -> String), (25, m25 as fn() -> String, r25 as fn() -> String), (26, m26 as fn() -> String, r26 as fn() -> String), (27, m27 as fn() -> String, r27 as fn() -> String), (28, m28 as fn() -> String, r28 as fn() -> String), (30, m30 as fn() -> String, r30 as fn() -> String), (31, m31 as fn() -> String, r31 as fn() -> String), (33, m33 as fn() -> String, r33 as fn() -> String), (36, m36 as fn() -> String, r36 as fn() -> String), (37, m37 as fn() -> String, r37 as fn() -> String), (40, m40 as fn() -> String, r40 as fn() -> String), (41, m41 as fn() -> String, r41 as fn() -> String), (47, m47 as fn() -> String, r47 as fn() -> String), (50, m50 as fn() -> String, r50 as fn() -> String), (51, m51 as fn() -> String, r51 as fn() -> String), (52, m52 as fn() -> String, r52 as fn() -> String), (59, m59 as fn() -> String, r59 as fn() -> String)] }
+pub fn cases() -> Vec<(usize, fn() -> String, fn() -> String)> { Vec::new() }
